@@ -33,6 +33,11 @@ def install_after_import(S, spec):
             # the code chose an order itself (list/tuple/sorted): pass through untouched
             if type(r) not in (set, frozenset):
                 S.probe("find_all_files_ordered_by_code")
+            else:
+                # natural (hash) order: record it so that a finding can be replayed with an
+                # explicit plan that does not depend on the sandbox's absolute path
+                S.probe("find_all_files_natural")
+                S.file_order = [os.path.relpath(str(p), sandbox) for p in r]
             return r
         items = sorted(r, key=str)
         mode = plan.get("mode", "sorted")
